@@ -548,3 +548,30 @@ V("C07-b7", "C07", (FILE, "        self._check_references()\n", "        if self
 V("C07-t1", "C07", (FILE, "                    if isinstance(v, EFLRItem) and id(v) not in own_item_ids:\n                        raise RuntimeError(f\"{v}, referenced by {attr}, has not been added to the same logical file\")",
                     "                    if not isinstance(v, EFLRItem):\n                        continue\n                    if id(v) in own_item_ids:\n                        continue\n                    raise RuntimeError(f\"{v}, referenced by {attr}, has not been added to the same logical file\")"),
   "silent", "guard clauses with continue")
+
+
+# ---------------------------------------------------------------------------------------------- C03 / C08 / C12 (layout)
+FDATA = "logical_record/iflr_types/frame_data.py"
+V("C03-b1", "C03", (FDATA, "            body += s.byteswap().tobytes()", "            body += s.tobytes()"), "R03.2", "no byte swap")
+V("C03-b2", "C03", (FDATA, "        body = self._frame.obname + write_struct_uvari(self._frame_number)", "        body = write_struct_uvari(self._frame_number) + self._frame.obname"),
+  "R03.1", "frame number before the frame reference")
+V("C03-b3", "C03", (SDW, "            number_type = np.dtype(number_type).newbyteorder('=')\n", "            number_type = np.dtype(number_type)\n"),
+  "R03.2", "source byte order kept")
+V("C03-b4", "C03", (SDW, "        for dtype_name, dataset_name in mapping.items():\n            dt: Union", "        for dtype_name, dataset_name in sorted(mapping.items()):\n            dt: Union"),
+  "R03.4", "fields in sorted instead of mapping order")
+V("C03-t1", "C03", (FDATA, "        for s in self._slots:\n            body += s.byteswap().tobytes()\n\n        return body",
+                    "        return body + b''.join(slot.byteswap().tobytes() for slot in self._slots)"), "silent", "join over a generator")
+V("C08-b1", "C08", (SDW, "                dt = (*dt, dset_row0.shape[-1])", "                dt = (*dt, dset_row0.shape[0])"), "R08.4", "width from the leading dimension")
+V("C08-b2", "C08", (CHAN, "        dim = list(sub_data.shape[1:]) or [1]", "        dim = list(sub_data.shape[1:]) or [0]"), "R08.4", "scalar dimension 0")
+V("C08-b3", "C08", (CHAN, "        if len(el) < len(dim):\n            return False\n", ""), "R08.4", "shorter element limit accepted")
+V("C08-b4", "C08", (CHAN, "            if el[i] < dim[i]:", "            if el[i] > dim[i]:"), "R08.4", "limit comparison inverted")
+V("C08-b5", "C08", (SDW, "            number_type = known_dtypes.get(dtype_name, dset_row0.dtype)", "            number_type = known_dtypes.get(dataset_name, dset_row0.dtype)"),
+  "R08.2", "cast dtype looked up by data set name")
+V("C08-b6", "C08", (SDW, "        if self._dtype == self._data_source.dtype:", "        if self._dtype.names == self._data_source.dtype.names:"), "R08.5",
+  "fast path on equal names only")
+V("C08-b7", "C08", (FRAME, "        for channel in self.channels.value:\n            channel.set_dimension_and_repr_code_from_data(data)", "        for channel in self.channels.value[1:]:\n            channel.set_dimension_and_repr_code_from_data(data)"),
+  "R08.3", "index channel not set up")
+V("C12-b1", "C12", (SDW, "            ReprCodeConverter.validate_numpy_dtype(number_type)\n", ""), "R12.2", "dtype not validated")
+V("C12-b2", "C12", (SDW, "                if dset_row0.ndim > 2:\n                    raise RuntimeError(\"Data sets with more than 2 dimensions are not supported\")\n", ""),
+  "R12.2", "3-D data accepted")
+V("C12-b3", "C12", (FILE, "        if not self.channels:\n            raise RuntimeError", "        if False:\n            raise RuntimeError"), "R12.1", "no channels accepted")
